@@ -891,6 +891,11 @@ static void gen_config(struct session *s)
 	if (vh_chance(r, 1, 2)) { size_t t2 = logu(r, 1, maxtotal); if (t2 > A->total) A->total = t2; }
 	B->total = vh_chance(r, 1, 2) ? logu(r, 1, maxtotal / 4) : 0;
 
+	/* every socket-buffer-full on TCP costs a real-time wait for the kernel: keep big streams off tiny buffers */
+	if (s->base_kind == BASE_TCP) {
+		if (A->total > (4u << 20)) A->total = 4u << 20;
+		if (A->total > (256u << 10) || B->total > (256u << 10)) s->sndbuf = s->rcvbuf = 0;
+	}
 	/* watermarks */
 	if (s->use_wm) {
 		if (wm_mode) {
@@ -1305,7 +1310,12 @@ static int transport_settle(struct session *s)
 			if (event_pending(&W->L[0].bev->ev_write, EV_WRITE, NULL) && fd_ready(W->fd, POLLOUT)) return 1;
 		}
 		if (outq <= 0 && fd_work_pending(s)) return 1;
-		if (outq > 0) { kernel_in_flight = 1; vh_stat("tcp_in_flight_after_3s"); }
+		if (outq > 0) {
+			int nsd = -1;
+			__real_ioctl(W->fd, SIOCOUTQNSD, &nsd);
+			kernel_in_flight = 1; vh_stat("tcp_in_flight_after_3s");
+			VLOG("  transport_settle: %s->%s still outq=%d unsent=%d fionread(R)=%ld after 3 s", side_name(W), side_name(R), outq, nsd, fionread(R->fd));
+		}
 	}
 	if (waited) vh_stat("real_wait_timeouts");
 	return 0;
